@@ -97,7 +97,7 @@ func runAwaitOnce(a []string, bound time.Duration) (string, bool) {
 	topicOf := map[int]string{}
 	for i, op := range a[3:] {
 		f := strings.Split(op, ".")
-		obj, _ := json.Marshal(Obj{Seed: i})
+		obj, _ := json.Marshal(newObj(i))
 		vers[f[1]]++
 		rec := &workflow.Record{WorkflowName: "wf", ForeignID: "f" + f[2], RunID: "r" + f[1], RunState: workflow.RunState(atoi(f[3])), Status: atoi(f[4]),
 			Object: obj, CreatedAt: simBase, UpdatedAt: simBase, Meta: workflow.Meta{Version: vers[f[1]]}}
